@@ -495,6 +495,16 @@ theorem sparse_path (d : Bool) (N : Nat) (hN : 2 ≤ N) (s : Sparse) (hs : Simpl
     init d (.sparse s) (some w) = .ok (ofGraph d N (relOf s) w none) :=
   init_simpleSparse d N hN s hs w hw
 
+/-- the matrix `csc_matrix(np.array(dense))` of a dense 0/1 matrix and the COO matrix
+of a duplicate-free edge list are such matrices (so `dense_path` and the matrix
+`FromIGraph` builds are instances of `sparse_path`), and the relation read off the
+former is the dense matrix's -/
+theorem sparse_path_instances (N : Nat) (a : Nat → Nat → Bool) (E : List (Nat × Nat))
+    (hnd : E.Nodup) (hr : ∀ p ∈ E, p.1 < N ∧ p.2 < N) :
+    SimpleSparse N (ofDenseMat N N (ind a)) ∧ SimpleSparse N (cooOnes N E)
+    ∧ ∀ i j, i < N → j < N → relOf (ofDenseMat N N (ind a)) i j = a i j :=
+  ⟨simpleSparse_dense N a, simpleSparse_cooOnes N E hnd hr, relOf_dense N a⟩
+
 /-- two sparse matrices with the same non-zero cells (whatever their storage order
 and explicit zeros) build the same network -/
 theorem sparse_storage_irrelevant (d : Bool) (N : Nat) (hN : 2 ≤ N) (s s' : Sparse)
@@ -707,6 +717,9 @@ example : ∀ op ∈ exOps, ValidOp false 4 op := by
     | trivial
     | rfl
     | (intro _ i j; simp [Nat.add_comm])
+/-- assigning a new adjacency matrix (sparse, unordered, with a stored zero) is a valid statement -/
+example : ValidOp false 4 (.setAdj ⟨4, 4, [(2, 3, 1), (3, 2, 1), (0, 1, 0)]⟩) :=
+  ⟨⟨rfl, rfl, by decide, by decide, by decide⟩, ⟨by decide, fun _ => forall_lt_lt (by decide)⟩⟩
 example : (spec 4 ⟨exA, exW, none, none⟩ exOps).w = [0, 1 / 2, 1, 4]
     ∧ (spec 4 ⟨exA, exW, none, none⟩ exOps).gvw = some [0, 1 / 2, 1, 4] := ⟨rfl, rfl⟩
 example : Reprs (ofGraph false 4 exA exW none) ⟨exA, exW, none, none⟩ :=
